@@ -774,7 +774,7 @@ func (p *Parser) enterNesting() error {
 		return goerrors.RecursionDepthLimitError(
 			p.depth+1,
 			MaxRecursionDepth,
-			models.Location{Line: 0, Column: 0},
+			p.currentLocation(),
 			"",
 		)
 	}
